@@ -52,27 +52,17 @@ func runC17(c *Ctx) {
 		c.Undecided("fresh container sites", "-", fmt.Sprintf("%d found", n))
 	}
 	funcs := p.AllSrcFuncs(pk)
-	shardT := p.LookupType(relPkg(pkgBatchProc), "shard")
-	procT := p.LookupType(relPkg(pkgBatchProc), "batchProcessor")
-	multiT := p.LookupType(relPkg(pkgBatchProc), "multiShardBatcher")
+	// anchors by shape (field types, configuration tags, the goroutine a shard method starts), see c17mx_A8.go
+	anc := findC17Anchors(p)
+	shardT, procT, multiT := anc.shardT, anc.procT, anc.multiT
 	if shardT == nil || procT == nil || multiT == nil {
 		c.Rule("R2", "WHO", "", 0)
 		c.Anchor("shard / batchProcessor / multiShardBatcher types")
 		return
 	}
-	shardT, procT, multiT = shardT.Origin(), procT.Origin(), multiT.Origin()
 
 	// the loop: method of shard started by `go`
-	var loop *ssa.Function
-	for _, fn := range funcs {
-		allInstrs(fn, func(in ssa.Instruction) {
-			if g, ok := in.(*ssa.Go); ok {
-				if cf := staticCalleeFn(g); cf != nil && recvNamedOfFn(cf) == shardT {
-					loop = cf
-				}
-			}
-		})
-	}
+	loop := anc.loop
 	// ---------- R2 confinement
 	c.Rule("R2", "WHO", "the shard's pending batch and timer are accessed only by functions whose every call chain starts at the shard's loop (or that allocate the shard)", 5)
 	if loop == nil {
@@ -128,7 +118,7 @@ func runC17(c *Ctx) {
 				return
 			}
 			name := derefStruct(fa.X.Type()).Field(fa.Field).Name()
-			if name != "batch" && name != "timer" {
+			if fa.Field != anc.fBatch && fa.Field != anc.fTimer {
 				return
 			}
 			if isFreshAlloc(fa.X) {
@@ -160,442 +150,20 @@ func runC17(c *Ctx) {
 	} else {
 		c.Anchor("batchProcessor.Shutdown")
 	}
-	{
-		// shutdown case: Select state on shutdownC; region guarded by its index
-		var sel *ssa.Select
-		allInstrs(loop, func(in ssa.Instruction) {
-			if s, ok := in.(*ssa.Select); ok && sel == nil && s.Blocking {
-				for _, st := range s.States {
-					if _, path := fieldChain(st.Chan); len(path) > 0 && path[len(path)-1] == "shutdownC" {
-						sel = s
-					}
-				}
-			}
-		})
-		if sel == nil {
-			c.Bad("shard loop selects on the stop channel", p.Pos(loop.Pos()), "no blocking select with a case on shutdownC")
-		} else {
-			idx := -1
-			for i, st := range sel.States {
-				if _, path := fieldChain(st.Chan); len(path) > 0 && path[len(path)-1] == "shutdownC" {
-					idx = i
-				}
-			}
-			var entry *ssa.BasicBlock
-			allInstrs(loop, func(in ssa.Instruction) {
-				if iff, ok := in.(*ssa.If); ok {
-					if bo, ok := iff.Cond.(*ssa.BinOp); ok && bo.Op == token.EQL {
-						if ex, ok := bo.X.(*ssa.Extract); ok && ex.Tuple == sel && ex.Index == 0 {
-							if k, ok := constInt(bo.Y); ok && int(k) == idx {
-								entry = iff.Block().Succs[0]
-							}
-						}
-					}
-				}
-			})
-			if entry == nil {
-				c.Undecided("shutdown case of the shard loop", p.Pos(sel.Pos()), "cannot locate the case body")
-			} else {
-				// returns reachable in the region: each must be preceded by drain (non-blocking select on newItem that
-				// calls processItem) and by a sendItems guarded by itemCount()>0
-				var drain *ssa.Select
-				var send ssa.CallInstruction
-				for _, b := range loop.Blocks {
-					if !(b == entry || entry.Dominates(b)) {
-						continue
-					}
-					for _, in := range b.Instrs {
-						if s, ok := in.(*ssa.Select); ok && !s.Blocking {
-							for _, st := range s.States {
-								if _, path := fieldChain(st.Chan); len(path) > 0 && path[len(path)-1] == "newItem" {
-									drain = s
-								}
-							}
-						}
-						if ci, ok := in.(ssa.CallInstruction); ok {
-							if cf := staticCalleeFn(ci); cf != nil && cf.Name() == "sendItems" {
-								send = ci
-							}
-						}
-					}
-				}
-				okDrain := drain != nil
-				okSend := false
-				if send != nil {
-					for _, g := range guardsOf(send.Block()) {
-						op, x, y, ok := cmpOf(g)
-						if ok && op == token.GTR {
-							if k, isC := constInt(y); isC && k == 0 {
-								if call, ok := x.(*ssa.Call); ok && call.Call.IsInvoke() && call.Call.Method.Name() == "itemCount" {
-									okSend = true
-								}
-							}
-						}
-					}
-				}
-				okOrder := drain != nil && send != nil && canReach(drain, send, nil) && !canReach(send, drain, nil)
-				retOK := false
-				for _, r := range returnsOf(loop) {
-					if entry == r.Block() || entry.Dominates(r.Block()) {
-						retOK = true
-						if send != nil && canReach(entryInstrOf(entry), r, map[ssa.Instruction]bool{send.(ssa.Instruction): true}) {
-							// allowed only via the itemCount()==0 side
-							retOK = okSend
-						}
-					}
-				}
-				// no return of the case bypasses the drain
-				if drain != nil {
-					bypass := ""
-					for _, r := range returnsOf(loop) {
-						if !(entry == r.Block() || entry.Dominates(r.Block())) {
-							continue
-						}
-						if canReach(entryInstrOf(entry), r, map[ssa.Instruction]bool{drain: true}) || entryInstrOf(entry) == ssa.Instruction(r) {
-							bypass = p.Pos(r.Pos())
-						}
-					}
-					c.Check(bypass == "", "every exit of the shutdown case passes the drain of the item channel", p.Pos(sel.Pos()), "no return before the drain", "the return at "+bypass+" leaves the shard loop on shutdown without draining the item channel: requests that were accepted but are still queued behind a slow export (possible also without a timer) are dropped")
-				}
-				c.Check(okDrain && okSend && okOrder && retOK, "shutdown case drains the channel and flushes the remainder", p.Pos(sel.Pos()), "non-blocking drain ≺ sendItems under itemCount()>0 ≺ return", fmt.Sprintf("drain loop=%v, final send under itemCount()>0=%v, order=%v, return inside case=%v: data accepted before shutdown is dropped", okDrain, okSend, okOrder, retOK))
-			}
-		}
+	// the shutdown case of the loop (drain the item channel, flush what is pending, end the goroutine) is decided by
+	// executing the goroutine body on the shard model: it does not matter into which helpers the case is cut
+	for _, m := range anc.missing {
+		c.Anchor(m)
 	}
+	runC17ShardModel(c, anc, "R3")
 
-	// ---------- R4 metadata
-	c.Rule("R4", "PROV+LOCK", "export runs under the shard's own context built from the metadata map; the shard key is an attribute.Set fed by every configured key; the shard counter is accessed under its lock, with the cardinality test and the increment in one critical section", 6)
-	for _, fn := range funcs {
-		for _, ci := range calls(fn, func(ci ssa.CallInstruction) bool {
-			return ci.Common().IsInvoke() && ci.Common().Method.Name() == "export" && recvNamedOfFn(rootFn(fn)) == shardT
-		}) {
-			c.Check(isFieldAccess(ci.Common().Args[0], shardT, "exportCtx"), "export uses the shard's own context in "+fnName(fn), p.Pos(ci.Pos()), "b.exportCtx", "the batch is exported under a context other than the shard's (e.g. a producer's): metadata of one group is attached to another group's data")
-		}
-	}
-	// constructor: exportCtx derives from the md parameter
-	for _, fn := range funcs {
-		if fn.Parent() != nil {
-			continue
-		}
-		for _, s := range fieldStores(fn, shardT, "exportCtx") {
-			dep := false
-			for v := range backSlice(s.Val) {
-				if pa, ok := v.(*ssa.Parameter); ok {
-					if _, isMap := pa.Type().Underlying().(*types.Map); isMap {
-						dep = true
-					}
-				}
-			}
-			c.Check(dep, "shard export context is built from the group's metadata in "+fnName(fn), p.Pos(s.Pos()), "depends on the md parameter", "the shard's export context does not carry the group's metadata")
-		}
-	}
-	var consume *ssa.Function
-	for _, fn := range funcs {
-		if fn.Parent() == nil && recvNamedOfFn(fn) == multiT && fn.Name() == "consume" {
-			consume = fn
-		}
-	}
-	if consume == nil {
-		c.Anchor("multiShardBatcher.consume")
-	} else {
-		// key argument of sync.Map Load/LoadOrStore
-		for _, ci := range callsNamed(consume, func(f *types.Func) bool {
-			return recvNamed(f) != nil && recvNamed(f).Obj().Name() == "Map" && f.Pkg().Path() == "sync" && (f.Name() == "Load" || f.Name() == "LoadOrStore")
-		}) {
-			key := ci.Common().Args[1]
-			isSet := false
-			if mi, ok := key.(*ssa.MakeInterface); ok && typeIs(mi.X.Type(), "go.opentelemetry.io/otel/attribute", "Set") {
-				isSet = true
-			}
-			depKeys, loopAll := false, false
-			for v := range backSlice(key) {
-				if ia, ok := v.(*ssa.IndexAddr); ok && isFieldAccess(ia.X, multiT, "metadataKeys") {
-					depKeys = true
-					loopAll = loopHasOnlyConditionExit(ia.Block())
-				}
-			}
-			// the metadata values enter the key only through the attribute constructors (injective):
-			// any other transformation of the value list on the way into the key can merge groups
-			lossy := ""
-			for v := range backSlice(key) {
-				call, ok := v.(*ssa.Call)
-				if !ok {
-					continue
-				}
-				fromGet := false
-				for w := range backSlice(call) {
-					if gc, ok := w.(*ssa.Call); ok && gc != call && calleeOf(gc) != nil && calleeOf(gc).Name() == "Get" && recvNamed(calleeOf(gc)) != nil && recvNamed(calleeOf(gc)).Obj().Name() == "Metadata" {
-						fromGet = true
-					}
-				}
-				if !fromGet {
-					continue
-				}
-				f := calleeOf(call)
-				switch {
-				case builtinName(call) == "append" || builtinName(call) == "len":
-				case f != nil && f.Pkg() != nil && f.Pkg().Path() == "go.opentelemetry.io/otel/attribute" && (f.Name() == "String" || f.Name() == "StringSlice" || f.Name() == "NewSet"):
-				default:
-					if f != nil {
-						lossy = f.FullName()
-					} else {
-						lossy = "dynamic call"
-					}
-				}
-			}
-			c.Check(lossy == "", "metadata values enter the shard key only through attribute constructors ("+calleeOf(ci).Name()+")", p.Pos(ci.Pos()), "attribute.String / StringSlice only", "the metadata value list passes through "+lossy+" before it becomes part of the shard key: distinct value lists can produce the same key and be batched together")
-			c.Check(isSet && depKeys && loopAll, "shard key of "+calleeOf(ci).Name()+" is an attribute set over every metadata key", p.Pos(ci.Pos()), "attribute.Set built by a loop over all metadataKeys", fmt.Sprintf("key is attribute.Set=%v, depends on metadataKeys=%v, loop covers all keys=%v: different metadata values can collide into one shard", isSet, depKeys, loopAll))
-		}
-		// LOCK on size
-		lc := &LockClass{Name: "multiShardBatcher.lock", Pkgs: []*packages.Package{pk},
-			Mutexes:    map[fieldKey]bool{{multiT, "lock"}: true},
-			Guarded:    map[fieldKey]bool{{multiT, "size"}: true},
-			NotGuarded: map[fieldKey]string{},
-			Structs:    []*types.Named{multiT},
-		}
-		reportLock(c, runLock(p, lc), lc)
-		// atomicity: limit comparison reads size directly and no Unlock lies between it and the increment
-		var cmpLoad *ssa.UnOp
-		var cmpIf *ssa.If
-		allInstrs(consume, func(in ssa.Instruction) {
-			iff, ok := in.(*ssa.If)
-			if !ok {
-				return
-			}
-			bo, ok := iff.Cond.(*ssa.BinOp)
-			if !ok {
-				return
-			}
-			lim := func(v ssa.Value) bool { return isFieldAccess(v, multiT, "metadataLimit") }
-			if (bo.Op == token.GEQ && lim(bo.Y)) || (bo.Op == token.LEQ && lim(bo.X)) {
-				other := bo.X
-				if lim(bo.X) {
-					other = bo.Y
-				}
-				if u, ok := other.(*ssa.UnOp); ok && isFieldAccess(u.X, multiT, "size") {
-					cmpLoad, cmpIf = u, iff
-				} else {
-					cmpIf = iff
-				}
-			}
-		})
-		var inc *ssa.Store
-		for _, s := range fieldStores(consume, multiT, "size") {
-			if isIncrementOf(s, multiT, "size", 1) {
-				inc = s
-			}
-		}
-		if cmpIf == nil || inc == nil {
-			c.Bad("cardinality limit test and increment", p.Pos(consume.Pos()), fmt.Sprintf("limit comparison `size >= limit` found=%v, size++ found=%v", cmpIf != nil, inc != nil))
-		} else if cmpLoad == nil {
-			c.Bad("cardinality limit test and increment are one critical section", p.Pos(cmpIf.Pos()), "the limit is compared with a value that is not a direct read of the counter under the lock (e.g. a call that locks on its own): two producers can both pass the test and exceed the limit")
-		} else {
-			split := false
-			for _, u := range calls(consume, func(ci ssa.CallInstruction) bool { return isMethod(calleeOf(ci), "sync", "Mutex", "Unlock") }) {
-				if canReach(cmpLoad, u, nil) && canReach(u, inc, nil) {
-					split = true
-				}
-			}
-			c.Check(!split, "cardinality limit test and increment are one critical section", p.Pos(cmpIf.Pos()), "no Unlock between the test and size++", "the lock is released between the limit test and the increment")
-			// refusal: over-limit side returns the too-many error
-			over := cmpIf.Block().Succs[0]
-			okRef := false
-			for _, r := range returnsOf(consume) {
-				if (over == r.Block() || over.Dominates(r.Block())) && !isNilConst(resultsOf(r)[0]) {
-					okRef = true
-				}
-			}
-			c.Check(okRef, "arrivals beyond the cardinality limit are refused with an error", p.Pos(cmpIf.Pos()), "returns a non-nil error on the over-limit side", "the over-limit side does not return an error")
-		}
-	}
+	// ---------- R4 metadata (c17r4_A8.go: anchors by type/tag, values and guards followed across helpers)
+	runC17R4(c, anc, funcs)
 
 	// ---------- R5 triggers
 	c.Rule("R5", "TAB+ORD", "size trigger: loop while itemCount() >= sendBatchSize; timer case sends under itemCount()>0 and re-arms on every path; the size path re-arms the timer only after a send; the max-size split is taken only when itemCount() > sendBatchMaxSize (strict)", 7)
-	var processItem *ssa.Function
-	for _, fn := range funcs {
-		if fn.Parent() == nil && recvNamedOfFn(fn) == shardT && len(callsNamed(fn, func(f *types.Func) bool { return f.Name() == "add" })) > 0 {
-			for _, ci := range calls(fn, func(ci ssa.CallInstruction) bool { return ci.Common().IsInvoke() && ci.Common().Method.Name() == "add" }) {
-				_ = ci
-				processItem = fn
-			}
-		}
-	}
-	if processItem == nil {
-		c.Anchor("shard.processItem (adds the item to the batch)")
-	} else {
-		fn := processItem
-		sends := calls(fn, func(ci ssa.CallInstruction) bool {
-			cf := staticCalleeFn(ci)
-			return cf != nil && cf.Name() == "sendItems"
-		})
-		if len(sends) == 0 {
-			c.Bad("size trigger sends", p.Pos(fn.Pos()), "processItem never sends")
-		} else {
-			s := sends[0]
-			hdr, body := innermostLoop(s.Block())
-			okCmp := false
-			if hdr != nil {
-				for b := range body {
-					iff, ok := b.Instrs[len(b.Instrs)-1].(*ssa.If)
-					if !ok {
-						continue
-					}
-					op, x, y, ok := cmpOf(Guard{Cond: iff.Cond, Branch: true, If: iff})
-					if !ok {
-						continue
-					}
-					isCount := func(v ssa.Value) bool {
-						call, ok := v.(*ssa.Call)
-						return ok && call.Call.IsInvoke() && call.Call.Method.Name() == "itemCount"
-					}
-					isSize := func(v ssa.Value) bool {
-						_, path := fieldChain(v)
-						return len(path) > 0 && path[len(path)-1] == "sendBatchSize"
-					}
-					if (op == token.GEQ && isCount(x) && isSize(y)) || (op == token.LEQ && isSize(x) && isCount(y)) {
-						okCmp = true
-					}
-				}
-			}
-			c.Check(hdr != nil && okCmp, "size trigger: send while itemCount() >= sendBatchSize", p.Pos(s.Pos()), "loop with the >= comparator", "the size trigger is not a loop on itemCount() >= sendBatchSize (e.g. `>`): a batch is not emitted as soon as send_batch_size items are pending")
-			// without a timer (timeout 0) nothing else would ever flush: the send must be reachable on the no-timer
-			// side without passing the size comparison
-			okNoTimer := false
-			if hdr != nil {
-				for b := range body {
-					iff, ok := b.Instrs[len(b.Instrs)-1].(*ssa.If)
-					if !ok {
-						continue
-					}
-					v, _ := boolOf(Guard{Cond: iff.Cond, Branch: true, If: iff})
-					call, ok := v.(*ssa.Call)
-					if !ok {
-						continue
-					}
-					cf := staticCalleeFn(call)
-					if cf == nil || recvNamedOfFn(cf) != shardT {
-						continue
-					}
-					// a predicate of the shard that reads its timer field
-					readsTimer := false
-					allInstrs(cf, func(in ssa.Instruction) {
-						if fa, ok := in.(*ssa.FieldAddr); ok && namedOf(fa.X.Type()) == shardT && strings.Contains(strings.ToLower(derefStruct(fa.X.Type()).Field(fa.Field).Name()), "timer") {
-							readsTimer = true
-						}
-					})
-					if !readsTimer {
-						continue
-					}
-					// one side of the test reaches the send without another If in between
-					for _, sc := range b.Succs {
-						if sc == s.Block() || (len(sc.Instrs) > 0 && sc.Instrs[len(sc.Instrs)-1] != nil && canReachNoIf(sc, s.Block())) {
-							okNoTimer = true
-						}
-					}
-				}
-			}
-			c.Check(okNoTimer, "size trigger: without a timer every arrival is sent at once", p.Pos(s.Pos()), "the no-timer side of the loop condition reaches the send without the size comparison", "the send loop is entered only through the size comparison: with `timeout: 0` (no timer exists) items below send_batch_size are never flushed until shutdown")
-		}
-		// re-arm only after a send
-		for _, ci := range calls(fn, func(ci ssa.CallInstruction) bool {
-			cf := staticCalleeFn(ci)
-			return cf != nil && (cf.Name() == "resetTimer" || cf.Name() == "stopTimer")
-		}) {
-			after := false
-			for _, g := range guardsOf(ci.Block()) {
-				v, br := boolOf(g)
-				phi, ok := v.(*ssa.Phi)
-				if !ok || !br {
-					continue
-				}
-				all := true
-				any := false
-				for i, e := range phi.Edges {
-					b, isC := constBool(e)
-					if !isC {
-						all = false
-						continue
-					}
-					if b {
-						any = true
-						pred := phi.Block().Preds[i]
-						dom := false
-						for _, s := range sends {
-							if s.Block() == pred || s.Block().Dominates(pred) {
-								dom = true
-							}
-						}
-						if !dom {
-							all = false
-						}
-					}
-				}
-				if all && any {
-					after = true
-				}
-			}
-			// or directly dominated by a send
-			for _, s := range sends {
-				if instrDominates(s, ci) {
-					after = true
-				}
-			}
-			c.Check(after, "size path re-arms the timer only after a send: "+staticCalleeFn(ci).Name(), p.Pos(ci.Pos()), "guarded by `a send happened`", "the flush timer is stopped/reset on every arriving item: a steady trickle below send_batch_size postpones the timeout flush indefinitely")
-		}
-	}
-	// timer case in the loop: select state on timer channel
-	{
-		var tsend ssa.CallInstruction
-		var treset ssa.CallInstruction
-		allInstrs(loop, func(in ssa.Instruction) {
-			ci, ok := in.(ssa.CallInstruction)
-			if !ok {
-				return
-			}
-			cf := staticCalleeFn(ci)
-			if cf == nil {
-				return
-			}
-			if cf.Name() == "resetTimer" {
-				treset = ci
-			}
-		})
-		if treset == nil {
-			c.Bad("timer case re-arms the timer", p.Pos(loop.Pos()), "the loop never resets the timer")
-		} else {
-			// the send in the same case: a sendItems call that can reach the reset and is guarded by itemCount()>0
-			for _, ci := range calls(loop, func(ci ssa.CallInstruction) bool {
-				cf := staticCalleeFn(ci)
-				return cf != nil && cf.Name() == "sendItems"
-			}) {
-				if canReach(ci, treset, nil) {
-					tsend = ci
-				}
-			}
-			okSend := false
-			var countIf *ssa.If
-			if tsend != nil {
-				for _, g := range guardsOf(tsend.Block()) {
-					op, x, y, ok := cmpOf(g)
-					if ok && op == token.GTR {
-						if k, isC := constInt(y); isC && k == 0 {
-							if call, ok := x.(*ssa.Call); ok && call.Call.IsInvoke() && call.Call.Method.Name() == "itemCount" {
-								okSend = true
-								countIf = g.If
-							}
-						}
-					}
-				}
-			}
-			// reset not guarded by the itemCount test (re-arms on every path of the case)
-			okReset := true
-			for _, g := range guardsOf(treset.Block()) {
-				if countIf != nil && g.If == countIf {
-					okReset = false
-				}
-			}
-			c.Check(okSend && okReset, "timer case: send under itemCount()>0, re-arm on every path", p.Pos(treset.Pos()), "send guarded, reset unconditional within the case", fmt.Sprintf("send guarded by itemCount()>0=%v, reset on every path=%v", okSend, okReset))
-		}
-	}
+	// size trigger, no-timer flush, re-arm after a send and the timer case: decided on the shard model
+	runC17ShardModel(c, anc, "R5")
 	// split comparator of the three batch types
 	nsplit := 0
 	for _, fn := range funcs {
